@@ -140,7 +140,10 @@ structure Settings where
   hasReceivedRemoteInitialSettings : Bool := false
   deriving Repr
 
-/-- `proto::Connection` (client) -/
+/-- the tag of the harness's `cn_poll` waker -/
+def WAKER_CONN : String := "c"
+
+/-- `proto::Connection` -/
 structure Conn where
   codec : Codec := {}
   state : ConnState := .open
@@ -149,6 +152,8 @@ structure Conn where
   pingPong : PingPong := {}
   settings : Settings := {}
   streams : Streams := {}
+  /-- the waker of the task that is polling the connection right now (`cx.waker()`) -/
+  cx : String := WAKER_CONN
   /-- set when the model meets something it does not cover (PUSH_PROMISE, CONTINUATION on output, ...) -/
   unsupported : Option String := none
   deriving Repr
@@ -164,7 +169,7 @@ inductive Step where
   | pending | ok | err (e : PErr)
   deriving Repr
 
-def WAKER_CONN : String := "c"
+
 
 namespace Conn
 
@@ -177,7 +182,7 @@ def unsup (c : Conn) (msg : String) : Conn :=
 
 /-- `dst.poll_ready(cx)` on the codec -/
 def codecPollReady (c : Conn) : Conn × Step :=
-  let (w, io, r) := pollReadyW c.codec.w c.codec.io WAKER_CONN
+  let (w, io, r) := pollReadyW c.codec.w c.codec.io c.cx
   ({ c with codec := { c.codec with w := w, io := io } },
    match r with | .ready => .ok | .pending => .pending | .err k => .err (.io k none))
 
@@ -264,7 +269,7 @@ def sendPendingPing (c : Conn) : Conn × Step :=
     match c.pingPong.userPings with
     | some u =>
       -- register first, then look at the state
-      let u := { u with pingTask := some WAKER_CONN }
+      let u := { u with pingTask := some c.cx }
       let c := { c with pingPong := { c.pingPong with userPings := some u } }
       if u.state == Generated.Consts.USER_STATE_PENDING_PING then
         match c.codecPollReady with
@@ -383,7 +388,7 @@ def pollReady (c : Conn) : Conn × Step :=
     | (c, .ok) =>
       match c.settingsPollSend with
       | (c, .ok) =>
-        let (s, w, io, r) := Streams.pollSendPendingRefusal 4 c.streams c.codec.w c.codec.io WAKER_CONN
+        let (s, w, io, r) := Streams.pollSendPendingRefusal 4 c.streams c.codec.w c.codec.io c.cx
         let c := { c with streams := s, codec := { c.codec with w := w, io := io } }
         (c, match r with | .ready => .ok | .pending => .pending | .err k => .err (.io k none))
       | r => r
@@ -444,7 +449,8 @@ inductive ReceivedFrame where
   deriving Repr
 
 def headersIn (sid : Nat) (eos : Bool) (blk : Frame.HeaderBlock) : HeadersIn :=
-  { sid := sid, eos := eos, status := blk.pseudo.status, hasProtocol := blk.pseudo.protocol.isSome,
+  { sid := sid, eos := eos, status := blk.pseudo.status, method := blk.pseudo.method, scheme := blk.pseudo.scheme,
+    authority := blk.pseudo.authority, path := blk.pseudo.path, hasProtocol := blk.pseudo.protocol.isSome,
     fields := blk.fields, isOverSize := blk.isOverSize }
 
 /-- `DynConnection::recv_frame(frame)` -/
@@ -489,7 +495,7 @@ def poll2Loop : Nat → Conn → Conn × PollRes
       | (c, .pending) => (c, PollRes.pending)
       | (c, .err e) => (c, .ready (.error e))
       | (c, .ok) =>
-        let (codec, polled) := pollNext (c.codec.r.buf.length + c.codec.io.rd.length + 2) c.codec WAKER_CONN
+        let (codec, polled) := pollNext (c.codec.r.buf.length + c.codec.io.rd.length + 2) c.codec c.cx
         let c := { c with codec := codec }
         match polled with
         | .pending => (c, .pending)
@@ -532,7 +538,7 @@ def protoPoll : Nat → Conn → Conn × PollRes
         | (c, .ok _) => protoPoll fuel c
         | (c, .error e) => (c, .ready (.error e))
       | (c, .pending) =>
-        let (s, w, io, r) := Streams.pollComplete (fuel + 1) c.streams c.codec.w c.codec.io WAKER_CONN
+        let (s, w, io, r) := Streams.pollComplete (fuel + 1) c.streams c.codec.w c.codec.io c.cx
         let c := { c with streams := s, codec := { c.codec with w := w, io := io } }
         match r with
         | .pending => (c, .pending)
@@ -542,7 +548,7 @@ def protoPoll : Nat → Conn → Conn × PollRes
           protoPoll fuel (c.goAwayNow NO_ERROR)
         else (c, .pending)
     | .closing reason init =>
-      let (w, io, r) := shutdownW c.codec.w c.codec.io WAKER_CONN
+      let (w, io, r) := shutdownW c.codec.w c.codec.io c.cx
       let c := { c with codec := { c.codec with w := w, io := io } }
       match r with
       | .pending => (c, .pending)
@@ -562,9 +568,25 @@ def clientPoll (fuel : Nat) (c : Conn) : Conn × PollRes :=
   let (c, r) := protoPoll fuel c
   let pending := match r with | .pending => true | _ => false
   let c := if pending && had && !c.hasStreamsOrOtherReferences then
-      { c with streams := c.streams.wake [WAKER_CONN] }
+      { c with streams := c.streams.wake [c.cx] }
     else c
   (c, r)
+
+/-- `Connection::go_away_gracefully` (server) -/
+def goAwayGracefully (c : Conn) : Conn :=
+  if c.goAway.isGoingAway then c
+  else
+    let c := c.dynGoAway STREAM_ID_MAX NO_ERROR
+    let c := if c.pingPong.pendingPing.isSome then c.panic "assertion failed: self.pending_ping.is_none()" else c
+    { c with pingPong := c.pingPong.pingShutdown }
+
+/-- `Connection::go_away_from_user(e)` / `DynConnection::go_away_from_user` (server `abrupt_shutdown`) -/
+def goAwayFromUser (c : Conn) (e : Reason) : Conn :=
+  let last := c.streams.recv.lastProcessedId
+  let (g, ok) := c.goAway.goAwayFromUser { lastStreamId := last, reason := e }
+  let c := { c with goAway := g }
+  let c := if ok then c else c.panic "GOAWAY stream IDs shouldn't be higher"
+  { c with streams := (c.streams.handleError (PErr.userGoAway e)).1 }
 
 /-- the builder options the harness can set (`cn_new client k=v ...`) -/
 structure Cfg where
@@ -613,6 +635,36 @@ def init (g : Cfg) : Conn :=
   let c := { c with codec := { c.codec with io := { c.codec.io with tx := ["PREFACE"] } } }
   let c := c.bufferSettings false settings
   let c := { c with streams := c.streams.cloneHandle }
+  match g.cws with
+  | some sz => c.setTargetWindowSize sz
+  | none => c
+
+/-- `server::Handshake::poll` driven once by the harness: the SETTINGS frame is flushed (the fresh
+    transport takes everything), the 24 octets of the preface are read off the transport (what is left
+    in `rd` is the peer's first SETTINGS frame), then `proto::Connection::new`.  The server builder
+    has no `push` / `init_max_send` / `first_id` (the harness ignores them for this role). -/
+def initServer (g : Cfg) (ecp : Bool) (peerFirst : Bytes) : Conn :=
+  let settings := (({ g with push := none } : Cfg).settings) ++ (if ecp then [(8, 1)] else [])
+  let r := CodecRead.Reader.new Generated.Consts.DEFAULT_MAX_FRAME_SIZE
+  let r := match g.mfs with | some m => r.setMaxFrameSize m | none => r
+  let r := match g.mhl with | some m => r.setMaxHeaderListSize m | none => r
+  let maxRecv := match g.mcs with | some m => m | none => USIZE_MAX
+  let flowInit : FlowControl :=
+    ((FlowControl.new.incWindow Generated.Consts.DEFAULT_INITIAL_WINDOW_SIZE).1.assignCapacity Generated.Consts.DEFAULT_INITIAL_WINDOW_SIZE).1
+  let streams : Streams :=
+    { counts := { isServer := true, maxSendStreams := 0, maxRecvStreams := maxRecv,
+                  maxLocalResetStreams := g.resetMax, maxRemoteResetStreams := g.pendAcceptReset,
+                  dataFrameBudget := Budget.new g.budget },
+      actions := {
+        recv := { flow := flowInit, nextStreamId := some 1, isPushEnabled := true,
+                  isExtendedConnectProtocolEnabled := ecp, resetDurationZero := g.resetSecs == 0 },
+        send := { nextStreamId := some 2,
+                  prioritize := { flow := flowInit, maxBufferSize := g.sendbuf } } },
+      refs := 1 }
+  let c : Conn := { codec := { r := r, io := { rd := peerFirst } }, settings := { loc := .waitingAck settings }, streams := streams }
+  let c := c.bufferSettings false settings
+  let (w, io, _) := flush c.codec.w c.codec.io WAKER_CONN
+  let c := { c with codec := { c.codec with w := w, io := io } }
   match g.cws with
   | some sz => c.setTargetWindowSize sz
   | none => c
